@@ -132,11 +132,19 @@ def cases(seed, tier, shard, nshards):
                     d['c'].append({'t': 'raw', 'src': '\\begin{lstlisting}%s\n%s\n\\end{lstlisting}' % (opt, raw), 'expect': raw, 'marker': m})
                 else:
                     d['c'].append({'t': 'raw', 'src': 'Wq%dx \\lstinline|%s| Wq%dx' % (k + 100, raw, k + 200), 'expect': raw, 'marker': m})
+        # a citation whose optional note carries raw markup characters (no ']' in the note)
+        suffix = ''
+        if r.random() < 0.3:
+            k += 1
+            m = 'Wq%dx' % k
+            raw = r.choice([x for x in VERB_RAW if ']' not in x and '&' not in x] + ['M<b>x</b>', '<script>M</script>']).replace('M', m)
+            d['c'].append({'t': 'raw', 'src': 'Wq%dx \\cite[%s]{zk1} Wq%dx' % (k + 100, raw, k + 200), 'expect': raw, 'marker': m})
+            suffix = '\n\\begin{thebibliography}{9}\\bibitem{zk1} BibA1z\\end{thebibliography}\n'
         setup_ = r.choice(SETUPS)
-        src = docs.latex(d, extra_preamble=pre)
+        src = docs.latex(d, extra_preamble=pre, body_suffix=suffix)
         docs.ADV_ON[0] = False
         try:
-            bare = docs.latex(d, extra_preamble=pre)
+            bare = docs.latex(d, extra_preamble=pre, body_suffix=suffix)
         finally:
             docs.ADV_ON[0] = True
         yield {'src': src, 'bare': bare, 'leaves': leaves_of(d), 'renderer': setup_[0], 'theme': setup_[1], 'escape': r.random() < 0.4,
